@@ -695,6 +695,49 @@ def _p_filter_scan_state(ex, n, args, kwargs):
     return (_learn_state(T), Static(None))
 
 
+# ------------------------------------------------------------------------------------------------ C12 / C05: off-policy reset, N > 1
+def _offreset_bind():
+    def vmap(ex, n, a, k):
+        callee = ast.unparse(n.args[0]) if n.args else None
+        axes = ast.unparse([kw.value for kw in n.keywords if kw.arg == "in_axes"][0]) if any(kw.arg == "in_axes" for kw in n.keywords) else None
+        if callee == "AbstractOffPolicyStepState.initial" and axes == "(None, None, None, None, 0)":
+            def call(ex2, n2, a2, k2):
+                if len(a2) != 5 or k2 or not (isinstance(a2[4], Vec) and a2[4].ety == "K"):
+                    fail(n2, "vmapped initial call form")
+                size = to_sc(a2[0], "Z", n2)
+                return Vec.base(f"(map (fun k__ => ss_init {size.t} k__) {materialise(a2[4])})", "O")
+            return Prim(call)
+        if callee == "self.collect_learning_starts" and axes == "(None, None, 0, None, 0)":
+            def call(ex2, n2, a2, k2):
+                if len(a2) != 5 or k2 or not (isinstance(a2[2], Vec) and isinstance(a2[4], Vec) and a2[4].ety == "K"):
+                    fail(n2, "vmapped warm-up call form")
+                return Vec.base(f"(kzip2 (fun s__ k__ => warm s__ k__) {materialise(a2[2])} {materialise(a2[4])})", "O")
+            return Prim(call)
+        fail(n, f"unexpected vmap: {callee} with in_axes {axes}")
+    nenv = Z("(Z.of_nat N)")
+    nenv.not_one = True
+    selfo = Obj({"num_envs": nenv, "buffer_size": Z("(Z.of_nat B)"), "collect_learning_starts": Prim(lambda ex, n, a, k: fail(n, "unvmapped warm-up in the N > 1 kernel")),
+                 "optimizer": Obj({"init": Prim(lambda ex, n, a, k: O("opt0"))}, "optimizer"), "@name": O("algo")}, "algo")
+    return {"self": selfo, "env": O("env"), "policy": O("pol"), "key": K("k"),
+            "callback": Obj({"reset": Prim(lambda ex, n, a, k: Sc("O", f"(cb_reset {k['key'].t})") if set(k) == {"key"} else fail(n, "callback.reset form")),
+                             "@name": O("cb")}, "callback"),
+            "@jax.vmap": Prim(vmap), "@ResetContext": Prim(lambda ex, n, a, k: Static("ctx")), "@locals": Prim(lambda ex, n, a, k: Static("locals")),
+            "@eqx.filter": Prim(lambda ex, n, a, k: a[0]), "@eqx.is_inexact_array": Static("is_inexact_array"),
+            "@AbstractOffPolicyStepState.initial": Prim(lambda ex, n, a, k: fail(n, "unvmapped initial in the N > 1 kernel")),
+            "@AbstractOffPolicyState": Prim(lambda ex, n, a, k: Obj(dict(zip(["iteration_count", "step_state", "env", "policy", "opt_state", "callback_state"], a)), "alg_state")
+                                            if len(a) == 6 and not k else fail(n, "AbstractOffPolicyState form"))}
+
+
+def _offreset_out(res, ex):
+    if not (isinstance(res, Obj) and res.name == "alg_state"):
+        raise TranslateError("reset no longer returns the algorithm state")
+    f = res.fields
+    if term_of(f["policy"]) != "pol" or term_of(f["env"]) != "env":
+        raise TranslateError("reset changes the policy or the environment")
+    return [("count", "Z", term_of(f["iteration_count"], "Z")), ("step_states", "list SS", term_of(f["step_state"])),
+            ("callback_state", "CB", term_of(f["callback_state"]))]
+
+
 def _step_out(res, ex):
     if not (isinstance(res, tuple) and len(res) == 6):
         raise TranslateError("step no longer returns (state, observation, reward, terminal, truncate, info)")
@@ -887,7 +930,10 @@ KERNELS = {
                    "(train : X -> OS -> list BUF -> kpath -> X * OS * LOG) (ss_cb : list SS -> SCB) (cb_iter : CB -> Z -> SCB -> X -> OS -> kpath -> CB) "
                    "(cnt : Z) (ss : list SS) (pol : X) (opt : OS) (cbs : CB) (k : kpath)",
                    lambda res, ex: [("step_states", "list SS", term_of(res.fields["step_state"])), ("policy", "X", term_of(res.fields["policy"]))],
-                   opaque_attrs={"callback_state": "ss_cb"})],
+                   opaque_attrs={"callback_state": "ss_cb"}),
+            Kernel("offresetN", "algorithm/off_policy.py", "AbstractOffPolicyAlgorithm", "reset", _offreset_bind,
+                   "{SS CB : Type} (N B : nat) (ss_init : Z -> kpath -> SS) (warm : SS -> kpath -> SS) (cb_reset : kpath -> CB) (k : kpath)",
+                   _offreset_out)],
     "C11": [Kernel("oniter", "algorithm/on_policy.py", "AbstractOnPolicyAlgorithm", "iteration", _oniter_bind, _ONITER_PARAMS, _oniter_out,
                    opaque_attrs={"callback_state": "ss_cb"})],
     "C20": [Kernel("gait_initial", _GAIT, None, "initial_gait_phase", lambda: {}, "(u : unit)", _gait_init_out),
